@@ -1442,6 +1442,9 @@ def longitude_continuity(coordinates, region):
     interval_360 = True
     w = w % 360
     e = e % 360
+    # An east boundary on the 0/360 seam closes the region at 360, not at 0
+    if e == 0 and 0 < w < 180:
+        e = 360
     # Move west=0 and east=360 if region longitudes goes all around the globe
     if all_globe:
         w, e = 0, 360
@@ -1450,6 +1453,9 @@ def longitude_continuity(coordinates, region):
         interval_360 = False
         e = ((e + 180) % 360) - 180
         w = ((w + 180) % 360) - 180
+        # An east boundary on the -180/180 seam closes the region at 180
+        if w > e:
+            e = e + 360
     region = np.array(region)
     region[:2] = w, e
     # Modify extra coordinates if passed
@@ -1459,8 +1465,14 @@ def longitude_continuity(coordinates, region):
         longitude = coordinates[0]
         if interval_360:
             longitude = longitude % 360
+            # Longitudes on the seam belong to the east boundary at 360
+            if e == 360 and w > 0:
+                longitude = np.where(longitude == 0, 360, longitude)
         else:
             longitude = ((longitude + 180) % 360) - 180
+            # Longitudes on the seam belong to the east boundary at 180
+            if e == 180:
+                longitude = np.where(longitude == -180, 180, longitude)
         coordinates = np.array(coordinates)
         coordinates[0] = longitude
         return coordinates, region
